@@ -1,4 +1,12 @@
+-- all modules of the library (regenerate with tools/mkroot.py)
+import Fpy.Model.Lang.Core
+import Fpy.Model.Num.Ctx
+import Fpy.Model.Num.Engine
+import Fpy.Model.Num.Float
 import Fpy.Model.Num.RealFloat
 import Fpy.Model.Num.Round
-import Fpy.Model.Num.Float
-import Fpy.Model.Num.Ctx
+import Fpy.Proof.Round
+import Fpy.Proof.Stochastic
+import Fpy.Props.C01
+import Fpy.Props.C17
+import Fpy.Spec.Rounding
